@@ -1,6 +1,8 @@
 """C16 - comparisons and numeric conversions agree with the exact stored value."""
 from . import ops, pipeline
 
+from . import routes, fresh, flags, sizes, conv, dtype, carriers, funcs, ops, strings, pipeline, widths
+
 EXPLANATION = (
     "R1 comparator table: each of __lt__ __le__ __eq__ __ne__ __gt__ __ge__ returns, on both its Fxp and plain-number path, a single comparison with the operator of its "
     "own name between self.get_val() and the other operand's value (x.get_val() for an Fxp) - never raw codes, never through a helper that re-aligns codes; "
@@ -16,3 +18,4 @@ def run(ck):
     ops.conversions(ck, "C16.R2")
     ops.value_type_fixup(ck, "C16.R3")
     pipeline.factor_rule(ck, "C01.R3")
+    routes.carrier_types(ck, "C01.R6")               # get_val() casts to the value type: it must not be a narrow NumPy dtype
